@@ -119,6 +119,7 @@ def run(idx: ProgramIndex, rep: Report, tier: str):
     conditionals(idx, rep)
     log_normal_cdf(idx, rep)
     inputs_intact(idx, rep)
+    legacy_layout_guard(idx, rep)
 
 
 # ---- C13-1 ---------------------------------------------------------------------------------------------------------
@@ -952,3 +953,39 @@ def inputs_intact(idx: ProgramIndex, rep: Report):
             if mn in c.methods:
                 funcs.append(c.methods[mn])
     aliasing_obligations(idx, rep, "C13-8", funcs, 10, "likelihood / quadrature methods", arg_attrs_alias=True)
+
+
+# ---- C13-9 ---------------------------------------------------------------------------------------------------------
+def legacy_layout_guard(idx: ProgramIndex, rep: Report):
+    """SoftmaxLikelihood documents its input as num_data x num_features and still accepts the deprecated transposed layout, which it
+    recognises from the sizes.  Re-interpreting (transposing) the input is sound only when the DOCUMENTED layout cannot be meant: the
+    test has to look at the trailing size as well.  `num_data == self.num_features` alone also holds for a correctly laid out input with
+    as many points as features, which is then transposed silently: class probabilities off by 0.28 for n = num_features = 4."""
+    from .c10 import _tests_around
+    rep.rule("C13-9", "the likelihood re-interprets the layout of its input (legacy transposed samples) only under a test that excludes the documented layout: the trailing size is compared too, not only the leading one")
+    S = idx.find_class("SoftmaxLikelihood")
+    fw = S.methods.get("forward")
+    if fw is None:
+        raise AnalysisError("C13-9: SoftmaxLikelihood.forward not found (anchor)")
+    arg = fw.params[1]
+    # names bound to the leading / trailing event sizes of the argument
+    lead, trail = set(), set()
+    for a in ast.walk(fw.node):
+        if isinstance(a, ast.Assign) and len(a.targets) == 1 and isinstance(a.targets[0], ast.Tuple) and len(a.targets[0].elts) == 2 and "shape[-2:]" in src(a.value) and arg in src(a.value):
+            lead.add(a.targets[0].elts[0].id)
+            trail.add(a.targets[0].elts[1].id)
+    n = 0
+    for a in ast.walk(fw.node):
+        if not (isinstance(a, ast.Assign) and isinstance(a.value, ast.Call) and isinstance(a.value.func, ast.Attribute) and a.value.func.attr in ("transpose", "mT", "permute")
+                and isinstance(a.value.func.value, ast.Name) and a.value.func.value.id == arg):
+            continue
+        n += 1
+        tests = _tests_around(fw.node, a)
+        names = {x.id for t, pos in tests if pos for x in ast.walk(t) if isinstance(x, ast.Name)}
+        texts = " and ".join(src(t) for t, pos in tests if pos)
+        sees_trailing = bool(names & trail) or any("shape[-1]" in src(t) or "size(-1)" in src(t) for t, pos in tests if pos)
+        rep.add("C13-9", "%s:SoftmaxLikelihood.forward[legacy layout]" % S.module.name, "%s:%d" % (fw.module.relpath, a.lineno), sees_trailing,
+                "the transposition is decided with the trailing size as well" if sees_trailing else
+                "the input is transposed whenever `%s`: a correctly laid out num_data x num_features input with num_data == num_features is re-interpreted as the deprecated layout (n = num_features = 4: class probabilities off by 0.28, expected_log_prob by 1.7 nats per point; n = 3, 5 are exact)" % texts, {})
+    if n == 0:
+        rep.add("C13-9", "%s:SoftmaxLikelihood.forward[legacy layout]" % S.module.name, fw.where, True, "no layout re-interpretation left", {}, trivial=True)
